@@ -166,6 +166,17 @@ def check(seq, sst):
         if db[k] != chain[(n - k) % n]:
             return (f"rotate_complex_db element {k} is {db[k]}, rotate() element {(n - k) % n} is "
                     f"{chain[(n - k) % n]}")
+    # --- explicit turn counts (C07_turns_*): t elements, the k-th carrying rcount(t, n, k) steps
+    for t in (-1, 0, 1, n - 1, n, n + 1, n + 2, 2 * n + 1):
+        got = [(list(u), "".join(v)) for u, v in rotate_complex_db(list(q0), list(s0), turns=t)]
+        steps = [k if (n <= t and t - n <= k) else k + 1 for k in range(max(t, 0))]
+        exp = [chain[(n - j % n) % n] for j in steps]
+        if got != exp:
+            return f"rotate_complex_db(turns={t}) yields {got}, expected {exp}"
+        got = [(names(u), "".join(v)) for u, v in cx.rotate(t)]
+        exp = [chain[k % n] for k in range(max(t, 1))]
+        if got != exp:
+            return f"rotate(turns={t}) yields {got}, expected {exp}"
     stab, ptab = strands(q0), table(sst)
     st0, pt0 = copy.deepcopy(stab), copy.deepcopy(ptab)
     pts = [(u, v) for u, v in rotate_complex_pt(stab, ptab)]
